@@ -1,9 +1,432 @@
-(** C12 -- property theorems, number types part (theorem names C12_nat_..., C12_sat_...).
-    The sat_count theorems are added to this file by the DD package. *)
-From OxiVerif Require Import Num.Natural Num.Saturating.
-From Coq Require Import List NArith.
+(** C12 -- property theorems only.
 
-(* placeholder until Num/NaturalProofs.v lands *)
-Theorem C12_nat_zero_not_nan : is_nan ZERO = false.
-Proof. reflexivity. Qed.
-Print Assumptions C12_nat_zero_not_nan.
+    Part 1 (C12_nat_...): the arbitrary-precision [Natural]
+    (model: Num/Natural.v, mirroring crates/oxidd-core/src/util/num/bigint.rs;
+    proofs: Num/NaturalProofs.v, NaturalAddProofs.v, NaturalCmpProofs.v,
+    NaturalDigitsProofs.v, NaturalExamples.v).
+    Vocabulary:
+    - [val n]    the number a value denotes: [None] for the error value NaN
+                 (exponent [u64::MAX]), otherwise [mantissa * 2^exponent] with
+                 the mantissa given by the little-endian u64 digit list;
+    - [Inv n]    the representation invariant (digits are u64, at least one digit,
+                 exponent is a u64, mantissa odd or zero, zero has exponent 0 or is
+                 NaN, an array of two or more digits holds a mantissa above
+                 [u64::MAX] with at most one zero digit at the top, below which the
+                 top bit is set); [inv_b] decides it;
+    - [norm v]   what an operation with exact result [v] returns: [Some v] if
+                 [v = 0] or the number of trailing zero bits of [v] (the exponent
+                 of its representation) is below [u64::MAX], NaN otherwise.
+
+    Part 2 (C12_su_...): [Saturating<u64>] / [Saturating<u128>]
+    (model Num/Saturating.v, proofs Num/SaturatingProofs.v); [sval] is [None]
+    for the out-of-bounds marker [T::MAX].
+
+    Part 3 (C12_sat_...): model counting (model DD/SatCount.v mirroring the three
+    [sat_count_edge] and [SatCountCache]; proofs DD/SatCountProofs.v,
+    DD/SatQueryProofs.v).  [count_levels n f] is the number of assignments of
+    the [n] levels satisfying [f]; [fun_bdd] / [fun_bcdd] / [fun_zbdd] are the
+    Boolean functions denoted by an edge (DD/Sem.v semantics). *)
+From Coq Require Import List NArith PArith Bool Arith FMapPositive.
+From OxiVerif Require Import Num.Natural Num.NatBase Num.NaturalProofs Num.NaturalAddProofs
+  Num.NaturalCmpProofs Num.NaturalDigitsProofs Num.NaturalExamples Num.Saturating Num.SaturatingProofs.
+From OxiVerif Require Import DD.Table DD.TableProofs DD.SatCount DD.SatCountProofs DD.SatQueryProofs.
+Import ListNotations.
+
+(** * Part 1: Natural *)
+
+(** the invariant implies the code's own [check_inv], and is decidable *)
+Theorem C12_nat_inv_check_inv : forall n, Inv n -> check_inv n = true.
+Proof. exact Inv_check_inv. Qed.
+Print Assumptions C12_nat_inv_check_inv.
+
+Theorem C12_nat_inv_decidable : forall n, inv_b n = true <-> Inv n.
+Proof. exact inv_b_spec. Qed.
+Print Assumptions C12_nat_inv_decidable.
+
+Theorem C12_nat_zero : Inv ZERO /\ val ZERO = Some 0%N.
+Proof. exact (conj Inv_ZERO val_ZERO). Qed.
+Print Assumptions C12_nat_zero.
+
+Theorem C12_nat_nan : Inv NAN /\ val NAN = None.
+Proof. exact (conj Inv_NAN val_NAN). Qed.
+Print Assumptions C12_nat_nan.
+
+(** every denoted number is representable: it is 0 or its number of trailing
+    zero bits is a valid exponent *)
+Theorem C12_nat_val_representable : forall n v, Inv n -> val n = Some v -> norm v = Some v.
+Proof. exact val_norm. Qed.
+Print Assumptions C12_nat_val_representable.
+
+(** [bit_width()] is [1 + floor(log2 v)] (0 for 0) *)
+Theorem C12_nat_bit_width : forall n v, Inv n -> val n = Some v -> bit_width n = N.size v.
+Proof. exact bit_width_val. Qed.
+Print Assumptions C12_nat_bit_width.
+
+(** [From<u8>], [From<u16>], [From<u32>], [From<u64>], [From<u128>] *)
+Theorem C12_nat_from_u8 : forall v, (v < 2 ^ 8)%N -> Inv (from_u8 v) /\ val (from_u8 v) = Some v.
+Proof. exact from_u8_spec. Qed.
+Print Assumptions C12_nat_from_u8.
+
+Theorem C12_nat_from_u16 : forall v, (v < 2 ^ 16)%N -> Inv (from_u16 v) /\ val (from_u16 v) = Some v.
+Proof. exact from_u16_spec. Qed.
+Print Assumptions C12_nat_from_u16.
+
+Theorem C12_nat_from_u32 : forall v, (v < 2 ^ 32)%N -> Inv (from_u32 v) /\ val (from_u32 v) = Some v.
+Proof. exact from_u32_spec. Qed.
+Print Assumptions C12_nat_from_u32.
+
+Theorem C12_nat_from_u64 : forall v, (v < B64)%N -> Inv (from_u64 v) /\ val (from_u64 v) = Some v.
+Proof. exact from_u64_spec. Qed.
+Print Assumptions C12_nat_from_u64.
+
+Theorem C12_nat_from_u128 : forall v, (v < B128)%N -> Inv (from_u128 v) /\ val (from_u128 v) = Some v.
+Proof. exact from_u128_spec. Qed.
+Print Assumptions C12_nat_from_u128.
+
+(** [from_le_digits]: any list of u64 digits *)
+Theorem C12_nat_from_le_digits : forall ds, Forall (fun d => (d < B64)%N) ds ->
+  Inv (from_le_digits ds) /\ val (from_le_digits ds) = norm (digits_val ds).
+Proof. exact from_le_digits_spec. Qed.
+Print Assumptions C12_nat_from_le_digits.
+
+(** [Add]: the exact sum; NaN iff an operand is NaN or the exponent of the sum
+    is not below [u64::MAX] *)
+Theorem C12_nat_add : forall a b, Inv a -> Inv b ->
+  Inv (nat_add a b) /\
+  val (nat_add a b) =
+    match val a, val b with
+    | Some x, Some y => norm (x + y)
+    | _, _ => None
+    end.
+Proof. exact nat_add_spec. Qed.
+Print Assumptions C12_nat_add.
+
+(** [Shl<u64>] ([Shl<u32>] forwards to it): [a * 2^k]; NaN iff [a] is NaN or the
+    exponent leaves the range *)
+Theorem C12_nat_shl : forall a k, Inv a -> (k <= U64MAX)%N ->
+  Inv (nat_shl a k) /\
+  val (nat_shl a k) = match val a with Some x => norm (x * 2 ^ k) | None => None end.
+Proof. exact nat_shl_spec. Qed.
+Print Assumptions C12_nat_shl.
+
+(** [Shr<u64>]: the exact quotient; NaN iff [a] is NaN or a 1 bit would be
+    shifted out *)
+Theorem C12_nat_shr : forall a k, Inv a -> (k <= U64MAX)%N ->
+  Inv (nat_shr a k) /\
+  val (nat_shr a k) =
+    match val a with
+    | Some x => if (x mod 2 ^ k =? 0)%N then Some (x / 2 ^ k)%N else None
+    | None => None
+    end.
+Proof. exact nat_shr_spec. Qed.
+Print Assumptions C12_nat_shr.
+
+(** [PartialEq] / [Hash]: the representation is canonical (NaN equals NaN) *)
+Theorem C12_nat_eq : forall a b, Inv a -> Inv b -> (nat_eqb a b = true <-> val a = val b).
+Proof. exact nat_eqb_spec. Qed.
+Print Assumptions C12_nat_eq.
+
+Theorem C12_nat_hash : forall a b, Inv a -> Inv b -> (hash_key a = hash_key b <-> val a = val b).
+Proof. exact hash_key_spec. Qed.
+Print Assumptions C12_nat_hash.
+
+(** [PartialOrd]: the order of the denoted numbers; [None] iff an operand is NaN *)
+Theorem C12_nat_partial_cmp : forall a b, Inv a -> Inv b ->
+  partial_cmp a b =
+    match val a, val b with
+    | Some x, Some y => Some (x ?= y)%N
+    | _, _ => None
+    end.
+Proof. exact partial_cmp_spec. Qed.
+Print Assumptions C12_nat_partial_cmp.
+
+(** [TryFrom<&Natural> for u64 / u128]: [Ok] iff the number fits *)
+Theorem C12_nat_try_into_u64 : forall a, Inv a ->
+  try_into_u64 a = match val a with
+                   | Some x => if (x <? B64)%N then Some x else None
+                   | None => None
+                   end.
+Proof. exact try_into_u64_spec. Qed.
+Print Assumptions C12_nat_try_into_u64.
+
+Theorem C12_nat_try_into_u128 : forall a, Inv a ->
+  try_into_u128 a = match val a with
+                    | Some x => if (x <? B128)%N then Some x else None
+                    | None => None
+                    end.
+Proof. exact try_into_u128_spec. Qed.
+Print Assumptions C12_nat_try_into_u128.
+
+(** non-vacuity: values of every shape satisfy the invariant; concrete sums,
+    shifts, comparisons; NaN arises from numbers exactly at the exponent bound *)
+Theorem C12_nat_example_inv : Inv ex_heap /\ Inv ex_inline /\ Inv ex_nan3 /\
+  val ex_heap = Some ((1 + 2 ^ 127) * 32)%N /\ bit_width ex_heap = 133%N /\
+  val ex_nan3 = None /\ check_inv ex_heap = true.
+Proof. exact ex_inv. Qed.
+Print Assumptions C12_nat_example_inv.
+
+Theorem C12_nat_example_add :
+  nat_add (from_u64 (2 ^ 64 - 1)) (from_u64 1) = mkNat [1%N] 64 /\
+  val (nat_add (from_u128 (2 ^ 100 + 1)) (from_u128 (2 ^ 100 - 1))) = Some (2 ^ 101)%N /\
+  nat_add (from_u128 (2 ^ 100 + 1)) (from_u128 (2 ^ 100 - 1)) = mkNat [1%N] 101 /\
+  val (nat_add (nat_shl (from_u64 3) 200) (from_u64 5)) = Some (3 * 2 ^ 200 + 5)%N /\
+  Inv (nat_add (nat_shl (from_u64 3) 200) (from_u64 5)).
+Proof. exact ex_add. Qed.
+Print Assumptions C12_nat_example_add.
+
+Theorem C12_nat_example_add_overflow :
+  let x := nat_shl (from_u64 1) (U64MAX - 1) in
+  Inv x /\ val x = Some (2 ^ (U64MAX - 1))%N /\ val (nat_add x x) = None /\
+  val (nat_add x (from_u64 1)) = Some (2 ^ (U64MAX - 1) + 1)%N.
+Proof. exact ex_add_overflow. Qed.
+Print Assumptions C12_nat_example_add_overflow.
+
+Theorem C12_nat_example_shifts :
+  val (nat_shr (from_u64 12) 2) = Some 3%N /\ val (nat_shr (from_u64 12) 3) = None /\
+  val (nat_shr (from_u64 0) 7) = Some 0%N /\
+  val (nat_shl (from_u64 5) (U64MAX - 1)) = Some (5 * 2 ^ (U64MAX - 1))%N /\
+  val (nat_shl (from_u64 6) (U64MAX - 1)) = None /\ val (nat_shl (from_u64 0) U64MAX) = Some 0%N.
+Proof. exact ex_shifts. Qed.
+Print Assumptions C12_nat_example_shifts.
+
+Theorem C12_nat_example_cmp :
+  partial_cmp (from_u128 (2 ^ 100 + 1)) (nat_shl (from_u64 1) 100) = Some Gt /\
+  partial_cmp (from_u64 7) (nat_shl (from_u64 1) 3) = Some Lt /\
+  partial_cmp ex_heap ex_heap = Some Eq /\
+  partial_cmp ex_nan3 (from_u64 1) = None /\
+  nat_eqb (mkNat [1; 2 ^ 63; 0]%N 5) (mkNat [1; 2 ^ 63]%N 5) = true /\
+  nat_eqb ex_nan3 NAN = true /\ nat_eqb (from_u64 4) (from_u64 2) = false /\
+  try_into_u64 (from_u128 (2 ^ 64)) = None /\ try_into_u64 (nat_shl (from_u64 3) 62) = Some (3 * 2 ^ 62)%N /\
+  try_into_u128 (from_u64 4) = Some 4%N /\
+  from_le_digits [0; 0; 12; 0]%N = mkNat [3%N] 130.
+Proof. exact ex_cmp. Qed.
+Print Assumptions C12_nat_example_cmp.
+
+(** * Part 2: Saturating<u64> / Saturating<u128> ([w] = 64, 128) *)
+
+Theorem C12_su_add : forall w, (1 <= w)%N -> forall a b, (a <= su_max w)%N -> (b <= su_max w)%N ->
+  (su_add w a b <= su_max w)%N /\
+  sval w (su_add w a b) =
+    match sval w a, sval w b with
+    | Some x, Some y => sfit w (x + y)
+    | _, _ => None
+    end.
+Proof. exact su_add_spec. Qed.
+Print Assumptions C12_su_add.
+
+(** [<<]: the marker as soon as a 1 bit would be shifted out *)
+Theorem C12_su_shl : forall w, (1 <= w)%N -> forall a k, (a <= su_max w)%N ->
+  (su_shl w a k <= su_max w)%N /\
+  sval w (su_shl w a k) =
+    match sval w a with
+    | Some x => sfit w (x * 2 ^ k)
+    | None => None
+    end.
+Proof. exact su_shl_spec. Qed.
+Print Assumptions C12_su_shl.
+
+Theorem C12_su_shr : forall w, (1 <= w)%N -> forall a k, (a <= su_max w)%N -> (k < w)%N ->
+  (su_shr w a k <= su_max w)%N /\
+  sval w (su_shr w a k) =
+    match sval w a with
+    | Some x => Some (x / 2 ^ k)%N
+    | None => None
+    end.
+Proof. exact su_shr_spec. Qed.
+Print Assumptions C12_su_shr.
+
+Theorem C12_su_sub : forall w, (1 <= w)%N -> forall a b, (a <= su_max w)%N -> (b <= a)%N ->
+  (su_sub w a b <= su_max w)%N /\
+  sval w (su_sub w a b) =
+    match sval w a with
+    | Some x => Some (x - b)%N
+    | None => None
+    end.
+Proof. exact su_sub_spec. Qed.
+Print Assumptions C12_su_sub.
+
+Theorem C12_su_example :
+  su_shl 64 3 63 = su_max 64 /\ su_shl 64 1 63 = (2 ^ 63)%N /\ su_shl 64 0 200 = 0%N /\
+  su_shl 128 5 126 = su_max 128 /\ su_add 64 (2 ^ 63) (2 ^ 63) = su_max 64 /\
+  su_shr 64 (su_max 64) 1 = su_max 64 /\ su_shr 64 12 2 = 3%N /\ su_sub 64 (su_max 64) 5 = su_max 64.
+Proof. exact ex_su. Qed.
+Print Assumptions C12_su_example.
+
+(** * Part 3: sat_count *)
+
+(** exact arithmetic (what a correct arbitrary-precision type computes): the
+    halving recursion from the terminal value [2^vars] returns the number of
+    satisfying assignments over [vars >= levels] variables *)
+Theorem C12_sat_bdd_exact : forall s vars r, WF s -> s_kind s = KBdd -> nlevels s <= vars ->
+  ref_ok s r ->
+  sat_bdd s (S (nlevels s)) vars r =
+  Some (2 ^ N.of_nat (vars - nlevels s) * count_levels (nlevels s) (fun_bdd s r))%N.
+Proof. exact sat_bdd_correct. Qed.
+Print Assumptions C12_sat_bdd_exact.
+
+Theorem C12_sat_bcdd_exact : forall s vars e, WF s -> s_kind s = KBcdd -> nlevels s <= vars ->
+  ref_ok s (eref e) ->
+  sat_bcdd s (S (nlevels s)) vars e =
+  Some (2 ^ N.of_nat (vars - nlevels s) * count_levels (nlevels s) (fun_bcdd s e))%N.
+Proof. exact sat_bcdd_correct. Qed.
+Print Assumptions C12_sat_bcdd_exact.
+
+Theorem C12_sat_zbdd_paths : forall s r, WF s -> s_kind s = KZbdd -> ref_ok s r ->
+  paths_zbdd s (S (nlevels s)) r = Some (count_levels (nlevels s) (fun_zbdd s r)).
+Proof. exact paths_zbdd_correct. Qed.
+Print Assumptions C12_sat_zbdd_paths.
+
+Theorem C12_sat_zbdd_exact : forall s vars r, WF s -> s_kind s = KZbdd -> nlevels s <= vars ->
+  ref_ok s r ->
+  sat_zbdd s (S (nlevels s)) vars r =
+  Some (2 ^ N.of_nat (vars - nlevels s) * count_levels (nlevels s) (fun_zbdd s r))%N.
+Proof. exact sat_zbdd_correct. Qed.
+Print Assumptions C12_sat_zbdd_exact.
+
+(** every halving [(a + b) >> 1] of the recursion is exact (no 1 bit is shifted
+    out: [Natural]'s [>>] never yields NaN there) *)
+Theorem C12_sat_bdd_halving_exact : forall s vars id nd e0 e1 a b,
+  WF s -> s_kind s = KBdd -> nlevels s <= vars ->
+  find_node s id = Some nd -> nchildren nd = [e0; e1] ->
+  sat_bdd s (S (nlevels s)) vars (eref e0) = Some a ->
+  sat_bdd s (S (nlevels s)) vars (eref e1) = Some b ->
+  ((a + b) mod 2 = 0 /\ sat_bdd s (S (nlevels s)) vars (RN id) = Some ((a + b) / 2) /\
+   2 * ((a + b) / 2) = a + b)%N.
+Proof. exact sat_bdd_halving_exact. Qed.
+Print Assumptions C12_sat_bdd_halving_exact.
+
+Theorem C12_sat_bcdd_halving_exact : forall s vars id tag nd e0 e1 a b,
+  WF s -> s_kind s = KBcdd -> nlevels s <= vars ->
+  find_node s id = Some nd -> nchildren nd = [e0; e1] ->
+  sat_bcdd s (S (nlevels s)) vars (mkEdge (eref e0) (xorb tag (etag e0))) = Some a ->
+  sat_bcdd s (S (nlevels s)) vars (mkEdge (eref e1) (xorb tag (etag e1))) = Some b ->
+  ((a + b) mod 2 = 0 /\ sat_bcdd s (S (nlevels s)) vars (mkEdge (RN id) tag) = Some ((a + b) / 2) /\
+   2 * ((a + b) / 2) = a + b)%N.
+Proof. exact sat_bcdd_halving_exact. Qed.
+Print Assumptions C12_sat_bcdd_halving_exact.
+
+(** the value of a reference of level [l] is a multiple of [2^(vars - levels + l)] *)
+Theorem C12_sat_bdd_divisible : forall s vars r, WF s -> s_kind s = KBdd -> nlevels s <= vars ->
+  ref_ok s r ->
+  sat_bdd s (S (nlevels s)) vars r =
+  Some (2 ^ N.of_nat (vars - nlevels s + rlevel s r) *
+        cnt (nlevels s - rlevel s r) (rlevel s r) (fun_bdd s r))%N.
+Proof. exact sat_bdd_divisible. Qed.
+Print Assumptions C12_sat_bdd_divisible.
+
+(** the cache inside one call, for every number type and each of the three
+    recursion schemes: a map whose entries are the values of the uncached
+    recursion ([cache_ok]) makes the cached recursion return the uncached value
+    and stays such a map *)
+Theorem C12_sat_cache_sound : forall (A : Type) (sch : scheme A) (s : snap), WF s ->
+  (forall t t' id id', sc_tagok sch t = true -> sc_tagok sch t' = true ->
+     sc_key sch t id = sc_key sch t' id' -> id = id' /\ t = t') ->
+  (forall t ct, sc_tagok sch t = true -> sc_tagok sch (sc_tag sch t ct) = true) ->
+  forall f all r tag m v, ref_ok s r -> sc_tagok sch tag = true ->
+  cache_ok sch s m -> walk sch s f r tag = Some v ->
+  exists m', walkc sch s f all r tag m = Some (v, m') /\ cache_ok sch s m'.
+Proof. exact @walkc_sound. Qed.
+Print Assumptions C12_sat_cache_sound.
+
+(** cache validity across calls, for every number type [o]: an entry is used
+    only under the [(gc_count, vars)] it was stored under ... *)
+Theorem C12_sat_query_clears : forall (A : Type) (o : numops A) (c : scache) epoch s vars e,
+  c_epoch c <> epoch \/ c_vars c <> vars ->
+  sat_query o c epoch s vars e =
+  sat_query o (mkCache epoch vars (PositiveMap.empty A) (c_all c)) epoch s vars e.
+Proof. exact @sat_query_clears. Qed.
+Print Assumptions C12_sat_query_clears.
+
+(** ... a call on a cache that is valid for the current table (or gets cleared)
+    returns the value of the uncached computation and leaves a valid cache ... *)
+Theorem C12_sat_query_sound : forall (A : Type) (o : numops A) c epoch s vars e v,
+  WF s -> binary (s_kind s) -> ref_ok s (eref e) ->
+  (c_epoch c = epoch -> c_vars c = vars -> cache_valid o c s) ->
+  sat_ref o s vars e = Some v ->
+  exists c', sat_query o c epoch s vars e = Some (v, c') /\
+    c_epoch c' = epoch /\ c_vars c' = vars /\ c_all c' = c_all c /\ cache_valid o c' s.
+Proof. exact @sat_query_sound. Qed.
+Print Assumptions C12_sat_query_sound.
+
+(** ... hence any history of calls sharing one cache object, with arbitrary
+    changes of the manager in between (other handles, collections, reorderings,
+    added variables, other [vars]) subject only to the epoch discipline
+    [hist_ok] (equal [gc_count] of consecutive calls = the node table was only
+    extended), returns call by call the values of the uncached computation *)
+Theorem C12_sat_history_transparent : forall (A : Type) (o : numops A) q qs,
+  qok q -> hist_ok q qs ->
+  exists vs c', run_queries o (@cache_default A) (q :: qs) = Some (vs, c') /\ refs_of o (q :: qs) vs.
+Proof. exact @run_queries_correct. Qed.
+Print Assumptions C12_sat_history_transparent.
+
+(** ... which in exact arithmetic are the model counts *)
+Theorem C12_sat_history_exact : forall q qs,
+  qok q -> hist_ok q qs -> counting (q :: qs) ->
+  exists c', run_queries exact_ops (@cache_default N) (q :: qs) =
+             Some (map (fun q => exact_count (q_snap q) (q_vars q) (q_edge q)) (q :: qs), c').
+Proof. exact run_queries_exact. Qed.
+Print Assumptions C12_sat_history_exact.
+
+(** Saturating<uW>: BDD -- exact while [2^vars] is representable, otherwise the
+    marker (0 stays 0) *)
+Theorem C12_sat_saturating_bdd : forall w, (2 <= w)%N -> forall s vars r,
+  WF s -> s_kind s = KBdd -> nlevels s <= vars -> ref_ok s r ->
+  sat_bdd_sat w s (S (nlevels s)) vars r =
+  option_map (saturate w vars) (sat_bdd s (S (nlevels s)) vars r).
+Proof. exact sat_bdd_saturating. Qed.
+Print Assumptions C12_sat_saturating_bdd.
+
+Theorem C12_sat_saturating_bdd_exact : forall w, (2 <= w)%N -> forall s vars r,
+  WF s -> s_kind s = KBdd -> nlevels s <= vars -> (N.of_nat vars < w)%N -> ref_ok s r ->
+  sat_bdd_sat w s (S (nlevels s)) vars r =
+  Some (2 ^ N.of_nat (vars - nlevels s) * count_levels (nlevels s) (fun_bdd s r))%N.
+Proof. exact sat_bdd_saturating_exact. Qed.
+Print Assumptions C12_sat_saturating_bdd_exact.
+
+(** ZBDD -- the exact count while it is representable, otherwise the marker *)
+Theorem C12_sat_saturating_zbdd : forall w, (2 <= w)%N -> forall s vars r,
+  WF s -> s_kind s = KZbdd -> nlevels s <= vars -> (N.of_nat (nlevels s) < w)%N -> ref_ok s r ->
+  sat_zbdd_sat w s (S (nlevels s)) vars r =
+  Some (sat_fit w (2 ^ N.of_nat (vars - nlevels s) * count_levels (nlevels s) (fun_zbdd s r)))%N.
+Proof. exact sat_zbdd_saturating. Qed.
+Print Assumptions C12_sat_saturating_zbdd.
+
+Theorem C12_sat_saturating_zbdd_exact : forall w, (2 <= w)%N -> forall s vars r,
+  WF s -> s_kind s = KZbdd -> nlevels s <= vars -> (N.of_nat vars < w)%N -> ref_ok s r ->
+  sat_zbdd_sat w s (S (nlevels s)) vars r =
+  Some (2 ^ N.of_nat (vars - nlevels s) * count_levels (nlevels s) (fun_zbdd s r))%N.
+Proof. exact sat_zbdd_saturating_exact. Qed.
+Print Assumptions C12_sat_saturating_zbdd_exact.
+
+(** non-vacuity: (x0 /\ x1) \/ x2 has 5 models over 3 and 10 over 4 variables;
+    a history with a cache hit, a change of [vars] and a collection; saturation *)
+Theorem C12_sat_example_bdd :
+  sat_bdd ex_sat_bdd 4 3 (RN 4) = Some 5%N /\
+  sat_bdd ex_sat_bdd 4 4 (RN 4) = Some 10%N /\
+  count_levels 3 (fun_bdd ex_sat_bdd (RN 4)) = 5%N /\
+  sat_bdd ex_sat_bdd 4 3 (RT 0) = Some 0%N /\ sat_bdd ex_sat_bdd 4 3 (RT 1) = Some 8%N.
+Proof. exact ex_sat_bdd_count. Qed.
+Print Assumptions C12_sat_example_bdd.
+
+Theorem C12_sat_example_history_ok :
+  match ex_history with
+  | q :: qs => qok q /\ hist_ok q qs /\ counting (q :: qs)
+  | [] => False
+  end.
+Proof. exact ex_history_ok. Qed.
+Print Assumptions C12_sat_example_history_ok.
+
+Theorem C12_sat_example_history_run :
+  match run_queries exact_ops (@cache_default N) ex_history with
+  | Some (vs, c) => vs = [5; 6; 10; 8]%N /\ c_epoch c = 1%N /\ c_vars c = 4
+  | None => False
+  end.
+Proof. exact ex_history_run. Qed.
+Print Assumptions C12_sat_example_history_run.
+
+Theorem C12_sat_example_saturating :
+  sat_bdd_sat 64 ex_sat_bdd 4 63 (RN 4) = Some (5 * 2 ^ 60)%N /\
+  sat_bdd_sat 64 ex_sat_bdd 4 64 (RN 4) = Some (sat_max 64) /\
+  sat_bdd_sat 64 ex_sat_bdd 4 64 (RT 0) = Some 0%N.
+Proof. exact ex_sat_bdd_u64. Qed.
+Print Assumptions C12_sat_example_saturating.
